@@ -1,6 +1,6 @@
 (* C11 — property theorems only.  Proofs live in Proofs/VlanProofs.v. *)
 From Coq Require Import List String Bool Arith NArith Permutation.
-From Annet Require Import Base.Str Model.Vlan Spec.P_C11 Proofs.VlanProofs.
+From Annet Require Import Base.Str Model.Vlan Model.VlanDb Spec.P_C11 Proofs.VlanProofs Proofs.VlanDbProofs.
 Import ListNotations.
 Open Scope string_scope.
 
@@ -95,3 +95,85 @@ Example C11_example_chunks :
   map (@List.length range) (chunked 10 (collapse true (set_of_ranges (map (fun i => (N.of_nat (2 * i), N.of_nat (2 * i))) (seq 1 25)))))
   = [10; 10; 5]%nat.
 Proof. vm_compute. reflexivity. Qed.
+
+(* ====================================================================================== *)
+(* The Huawei global VLAN database: the VLANs of the device are the union of the `vlan batch`
+   lines (any number of lines, any splitting) and of the `vlan N` blocks (with or without
+   option rows).  Model: vlan_diff over default_diff, mark_unchanged, `multi` on the batch slot,
+   common.default on the `vlan N` slots and on their option rows (Model/VlanDb.v).
+   Guard blocks_follow_batch: a VLAN that has a block in the new configuration and was in the
+   old batch is in the new batch too (always true of what a device prints; outside it the
+   shipped code is refuted below). *)
+
+(* inside the domain no assertion fires *)
+Theorem C11_db_total :
+  forall old new, wf_db (old, new) = true -> exists gs, db_struct old new = Some gs.
+Proof. exact db_total. Qed.
+Print Assumptions C11_db_total.
+
+(* executing `vlan batch ...`, `undo vlan batch ...`, `vlan N` (block enter), `undo vlan N` in
+   the emitted or in any other order on S_old = batch(old) + blocks(old) yields exactly
+   S_new = batch(new) + blocks(new) *)
+Theorem C11_db_final :
+  forall old new, wf_db (old, new) = true -> blocks_follow_batch (old, new) = true ->
+  forall gs, db_struct old new = Some gs ->
+  forall gs', Permutation gs' gs ->
+    NS.Equal (gsimulate gs' (Sdb_old (old, new))) (Sdb_new (old, new)).
+Proof. intros old new WF G gs E gs' P. exact (db_final old new WF G gs gs' E P). Qed.
+Print Assumptions C11_db_final.
+
+(* and no VLAN of S_old & S_new is missing after any prefix of the commands, in any order *)
+Theorem C11_db_no_transient_loss :
+  forall old new, wf_db (old, new) = true -> blocks_follow_batch (old, new) = true ->
+  forall gs, db_struct old new = Some gs ->
+  forall gs' l1 l2, Permutation gs' gs -> gs' = (l1 ++ l2)%list ->
+    NS.Subset (NS.inter (Sdb_old (old, new)) (Sdb_new (old, new))) (gsimulate l1 (Sdb_old (old, new))).
+Proof. intros old new WF G gs E gs' l1 l2. exact (db_prefix old new WF G gs gs' l1 l2 E). Qed.
+Print Assumptions C11_db_no_transient_loss.
+
+(* the boolean predicate used on real outputs holds of the model's own commands *)
+Theorem C11_db_holds :
+  forall old new gs, wf_db (old, new) = true -> blocks_follow_batch (old, new) = true ->
+    db_struct old new = Some gs -> gcmds_ok (old, new) gs = true.
+Proof. exact holds_db_struct. Qed.
+Print Assumptions C11_db_holds.
+
+(* Without the guard the statement is false of the shipped code: VLAN 20 leaves `vlan batch`
+   but the new configuration keeps it as a named block; the patch is `vlan 20 / name foo` and
+   `undo vlan batch 20`, which wipes VLAN 20 (in S_old and in S_new).  Replayed on the real code
+   by the check (corpus case, known finding). *)
+Definition f4_old : dbcfg := ([(false, [(10, 10); (20, 20)])], [])%N.
+Definition f4_new : dbcfg := ([(false, [(10, 10)])], [(20, ["name foo"])])%N.
+
+Theorem C11_db_block_leaves_batch_refuted :
+  exists x gs, wf_db x = true /\ db_struct (fst x) (snd x) = Some gs /\ gcmds_ok x gs = false /\
+               db_rows (print_db (fst x)) (print_db (snd x))
+               = Some [("undo vlan batch 20", []); ("vlan 20", ["name foo"])].
+Proof.
+  exists (f4_old, f4_new), [GBatch (Remove [(20, 20)]); GEnter 20 ["name foo"]]%N.
+  vm_compute. repeat split.
+Qed.
+Print Assumptions C11_db_block_leaves_batch_refuted.
+
+(* non-vacuity: 25 isolated VLANs wrapped over three `vlan batch` lines, VLAN 230 (second line)
+   has a named block that disappears while 230 stays in the batch, VLAN 100 leaves, 4000 joins:
+   inside the domain and the guard; the block is entered to undo the name, never removed *)
+Definition iso25 : list range := map (fun i => (N.of_nat (100 + 10 * i), N.of_nat (100 + 10 * i))) (seq 0 25).
+Definition nv_old : dbcfg :=
+  (map (pair false) (chunked 10 iso25), [(230%N, ["name users"])]).
+Definition nv_new : dbcfg :=
+  (map (pair false) (chunked 10 (List.tl iso25 ++ [(4000, 4000)%N])), []).
+
+Example C11_db_example :
+  wf_db (nv_old, nv_new) = true /\ blocks_follow_batch (nv_old, nv_new) = true /\
+  List.length (fst nv_new) = 3%nat /\
+  db_rows (print_db nv_old) (print_db nv_new)
+  = Some [("undo vlan batch 100", []); ("vlan batch 4000", []); ("vlan 230", ["undo name"])].
+Proof. vm_compute. repeat split. Qed.
+
+Example C11_db_example_guard_nonvacuous :
+  let old : dbcfg := ([(false, [(10, 10); (20, 20)])], [(20, ["name a"])])%N in
+  let new : dbcfg := ([(false, [(10, 10)]); (false, [(20, 20); (30, 30)])], [(20, ["name b"]); (40, [])])%N in
+  wf_db (old, new) = true /\ blocks_follow_batch (old, new) = true /\
+  db_struct old new = Some [GBatch (Add [(30, 30)]); GEnter 20 ["name b"]; GEnter 40 []]%N.
+Proof. vm_compute. repeat split. Qed.
